@@ -87,6 +87,20 @@ func (d *trigDest) WriteLevel(l zerolog.Level, p []byte) (int, error) {
 	return len(p), nil
 }
 
+// calmLW: the syslog writers panic on a level they do not know. A trigger writer that releases a line with a level nobody wrote is
+// what the recording destination next to it shows; the panic must not end the player before it can be recorded
+type calmLW struct{ lw zerolog.LevelWriter }
+
+func (c calmLW) Write(p []byte) (int, error) { return c.lw.Write(p) }
+func (c calmLW) WriteLevel(l zerolog.Level, p []byte) (n int, err error) {
+	defer func() {
+		if recover() != nil {
+			n, err = len(p), nil
+		}
+	}()
+	return c.lw.WriteLevel(l, p)
+}
+
 // the syslog writers know the levels Trace..NoLevel only (anything else is a programming error there)
 func trigSyslogLevels(ops []json.RawMessage) bool {
 	for _, raw := range ops {
@@ -113,7 +127,7 @@ func (f *trigFam) play(l *Line, out *rec) error {
 	if h%4 == 3 && trigSyslogLevels(l.Ops) {
 		// the destination is a fan-out: a syslog level writer (which has no severity for Trace and forwards nothing then) next to
 		// the recording destination. Whatever one destination does with a line, the other receives every released line
-		dw = zerolog.MultiLevelWriter(zerolog.SyslogLevelWriter(&mockSyslog{}), d)
+		dw = zerolog.MultiLevelWriter(calmLW{zerolog.SyslogLevelWriter(&mockSyslog{})}, d)
 	}
 	w := &zerolog.TriggerLevelWriter{Writer: dw, ConditionalLevel: zerolog.Level(c.Cond), TriggerLevel: zerolog.Level(c.Trig)}
 	out.emit(map[string]interface{}{"a": "Reset", "conf": c.Name, "id": l.ID, "plain": plain})
